@@ -329,16 +329,9 @@ impl E2Run for Sock {
             ));
             return out;
         }
-        let ctx_suffix = |log: &Log| -> String {
-            let mut s = String::new();
-            if log.back_to_back_writes {
-                s.push_str("|back-to-back-writes");
-            }
-            if log.late_reader {
-                s.push_str("|late-reader");
-            }
-            s
-        };
+        // (the two context markers were class suffixes while the write-order and
+        // receive-queue defects were open; both are fixed, one class per oracle now)
+        let ctx_suffix = |_log: &Log| -> String { String::new() };
         if log.back_to_back_writes {
             out.count("probe_back_to_back_writes");
         }
